@@ -1066,9 +1066,41 @@ func callBuiltin(caller *frame, callpos token.Pos, fn *ssa.Builtin, args []value
 			panic(fmt.Sprintf("cap: illegal operand: %T", x))
 		}
 
-	case "min":
-		return foldLeft(min, args)
-	case "max":
+	case "min", "max":
+		// symbolic operands: decide the comparison like a branch (the path forks on it)
+		anySym := false
+		for _, a := range args {
+			if _, ok := a.(symv); ok {
+				anySym = true
+			}
+		}
+		if anySym {
+			op := token.LSS
+			if fn.Name() == "max" {
+				op = token.GTR
+			}
+			x := args[0]
+			for _, y := range args[1:] {
+				var ot types.Type = types.Typ[types.Int]
+				if sig, ok := fn.Type().(*types.Signature); ok && sig.Results().Len() == 1 {
+					ot = sig.Results().At(0).Type()
+				}
+				c := caller.i.R.binopChecked(op, ot, y, x)
+				var take bool
+				if sv, ok := c.(symv); ok {
+					take = caller.i.R.branch(sv)
+				} else {
+					take = c.(bool)
+				}
+				if take {
+					x = y
+				}
+			}
+			return x
+		}
+		if fn.Name() == "min" {
+			return foldLeft(min, args)
+		}
 		return foldLeft(max, args)
 
 	case "real":
